@@ -111,6 +111,17 @@ def check(run):
     run.rule = RULE
     samples = standard_flow(run, units, deps["std"], vmon, profiles=("debug", "release"), tag="c05", nshards=len(units))
     sendsync_probe(run, deps["std"])
+    if thorough:
+        from .. import miri
+        r2 = gen.rng_for(run.seed, "c05-miri")
+        mu = []
+        for j, (n, nd) in enumerate([(0, 0), (1, 1), (3, 1)]):
+            ms = build_enum(r2, "M%d" % j, n, nd)
+            g = glue(ms, False)
+            import re as _re
+            g = _re.sub(r"explore\(m, &mk, (\d+), &make, \d+, \d+,", r"explore(m, &mk, \1, &make, 2, 6,", g)
+            mu.append(shards.Unit("u_m%d" % j, g, meta={"enum_src": ms.render()}, sig="miri,N=%d" % n))
+        miri.run_miri(run, mu)
     pick_samples(run, samples, {u.name: u for u in units})
     run.extra["programs"] = len(units)
     run.extra["profiles"] = ["debug (debug-assertions/overflow-checks on)", "release (opt-level 3, checks off)"]
